@@ -3,6 +3,7 @@ package ledger
 import (
 	"fmt"
 
+	"github.com/canopy-network/canopy/fsm"
 	"github.com/canopy-network/canopy/lib"
 
 	"verifharness/drv"
@@ -237,6 +238,159 @@ func init() {
 			c.EthSend(a, 6, EdKeys[2].Addr, 2000000000, 1, true) // more than the balance: rejected
 			c.End()
 			emptyBlocks(c, 1)
+			c.Finish()
+		}},
+		// the REAL ApplyTransactions loop with its own rollback branch (WholeApply: not the harness-side wrapper): a
+		// transaction that fails in the handler AFTER its fee was credited to the reward pool (send / stake / subsidy of
+		// more than balance - fee), followed in the same block by further pool users: the fee of the next transaction,
+		// a subsidy, or only EndBlock's reward distribution. Permanent shape of seed C04-failed-tx-leaves-pool-cache.
+		scenario{"failed-tx-then-pool-users", func(o *drv.Out, prop string) {
+			for variant := 0; variant < 4; variant++ {
+				g := baseGenesis()
+				g.Validators = []GenVal{{Key: BLSKeys[0], Stake: 1000000, Committees: []uint64{1}, Output: BLSKeys[0].Addr}}
+				c, _ := NewChain(o, prop, g)
+				c.WholeApply = true
+				a, b := EdKeys[0], EdKeys[1]
+				emptyBlocks(c, 1)
+				for blk := 0; blk < 3; blk++ {
+					c.Mint()
+					if variant == 3 {
+						c.Send(b, 10000, a.Addr, 5) // a pool user BEFORE the failing transaction too
+					}
+					switch variant {
+					case 0, 3:
+						c.Send(a, 10000, b.Addr, 1000000000) // fee paid, then insufficient funds
+					case 1:
+						c.Stake(BLSKeys[1], 10000, BLSKeys[1], 1000000000, []uint64{1}, false, false, BLSKeys[1].Addr)
+					case 2:
+						c.Subsidy(a, 10000, 1, 1000000000)
+					}
+					if variant != 2 || blk != 1 {
+						c.Send(b, 10000, a.Addr, 7) // the next fee builds on the reward pool
+					}
+					if blk == 2 {
+						c.Subsidy(b, 10000, 1, 4242)
+						c.Send(a, 10000, b.Addr, 1000000000) // fails last: only EndBlock uses the pool afterwards
+					}
+					c.End()
+				}
+				emptyBlocks(c, 1)
+				c.Finish()
+			}
+		}},
+		// permanent shapes of kept seeds that used to be reached by the random stream only (C04)
+		scenario{"ledger-corners", func(o *drv.Out, prop string) {
+			// an edit-stake whose amount is BELOW the current stake (a compounder re-submitting its original bond while
+			// changing committees / output / compound flag): the stake must not shrink
+			g := baseGenesis()
+			g.Validators = []GenVal{{Key: BLSKeys[0], Stake: 1000, Committees: []uint64{1}, Compound: true, Output: BLSKeys[0].Addr},
+				{Key: EdKeys[2], Stake: 700, Committees: []uint64{1, 2}, Delegate: true, Output: EdKeys[2].Addr}}
+			c, _ := NewChain(o, prop, g)
+			emptyBlocks(c, 1)
+			c.Mint()
+			c.EditStake(BLSKeys[0], 10000, BLSKeys[0].Addr, false, 500, []uint64{1, 2}, false, BLSKeys[0].Addr)
+			c.EditStake(EdKeys[2], 10000, EdKeys[2].Addr, true, 1, []uint64{2}, true, EdKeys[2].Addr)
+			c.EditStake(BLSKeys[0], 10000, BLSKeys[0].Addr, false, 1000, []uint64{1}, true, BLSKeys[0].Addr)
+			c.End()
+			emptyBlocks(c, 1)
+			c.Finish()
+			// a block mint that does not divide by the number of subsidized committees: 100 tokens, 5 % DAO, three
+			// committees at 100 % of the stake -> 95 / 3 leaves 2
+			g = baseGenesis()
+			g.InitialTokensPerBlock = 100
+			g.Validators = []GenVal{{Key: BLSKeys[0], Stake: 1000, Committees: []uint64{1, 2, 3}, Output: BLSKeys[0].Addr}}
+			c, _ = NewChain(o, prop, g)
+			emptyBlocks(c, 4)
+			c.Finish()
+			// a compounding validator that is unstaking is named reward recipient: it is paid the early-withdrawal amount
+			// to its output address and the penalty is burnt with the rest of the pool
+			g = baseGenesis()
+			g.Validators = []GenVal{{Key: BLSKeys[0], Stake: 1000000, Committees: []uint64{1}, Output: BLSKeys[0].Addr},
+				{Key: BLSKeys[1], Stake: 500000, Committees: []uint64{1}, Compound: true, Output: EdKeys[0].Addr, UnstakingHeight: 7}}
+			c, _ = NewChain(o, prop, g)
+			emptyBlocks(c, 1)
+			for i := 0; i < 3; i++ {
+				c.Mint()
+				c.Cert(c.Height(), c.Height(), []Member{{BLSKeys[0], 1000000, true}, {BLSKeys[1], 500000, true}}, nil,
+					[]Payment{{BLSKeys[1].Addr, 60, 1}, {BLSKeys[0].Addr, 30, 1}})
+				c.End()
+			}
+			emptyBlocks(c, 4)
+			c.Finish()
+		}},
+		// permanent shapes of kept C12 seeds that used to be reached by the random stream only
+		scenario{"staking-corners", func(o *drv.Out, prop string) {
+			two := func() *Genesis {
+				g := baseGenesis()
+				g.Validators = []GenVal{{Key: BLSKeys[0], Stake: 1000000, Committees: []uint64{1}, Output: BLSKeys[0].Addr},
+					{Key: BLSKeys[1], Stake: 100, Committees: []uint64{1, 2}, Output: BLSKeys[1].Addr}}
+				return g
+			}
+			// pause, then begin unstaking by a path other than the max-pause timeout: message, slash below the minimum
+			for variant := 0; variant < 2; variant++ {
+				g := two()
+				g.Params.Validator.MinimumStakeForValidators = 90
+				c, _ := NewChain(o, prop, g)
+				emptyBlocks(c, 1)
+				c.Mint()
+				c.Pause(BLSKeys[1], 10000, BLSKeys[1].Addr)
+				if variant == 0 {
+					c.Unstake(BLSKeys[1], 10000, BLSKeys[1].Addr)
+				} else {
+					c.Slash(1, 20, [][]byte{BLSKeys[1].Addr})
+				}
+				c.End()
+				emptyBlocks(c, 7)
+				c.Finish()
+			}
+			// more than MaxNonSign missed certificates inside one window, unstake before the window closes, then the
+			// window closes: the unstaking validator must not be auto-paused
+			g := two()
+			g.Params.Validator.NonSignWindow, g.Params.Validator.MaxNonSign = 4, 1
+			g.Params.Validator.UnstakingBlocks = 4
+			c, _ := NewChain(o, prop, g)
+			for c.Height() < 6 {
+				c.Mint()
+				c.Cert(c.Height(), c.Height(), []Member{{BLSKeys[0], 1000000, true}, {BLSKeys[1], 100, false}}, nil, nil)
+				if c.Height() == 3 {
+					c.Unstake(BLSKeys[1], 10000, BLSKeys[1].Addr)
+				}
+				c.End()
+			}
+			emptyBlocks(c, 6)
+			c.Finish()
+			// an unstaking validator drops below the minimum exactly in the block of its finish height (slash; raised
+			// minimum): no second marker
+			for variant := 0; variant < 2; variant++ {
+				g = two()
+				g.Params.Validator.MinimumStakeForValidators = 90
+				g.Validators[1].UnstakingHeight = 4
+				c, _ = NewChain(o, prop, g)
+				for c.Height() < 4 {
+					emptyBlocks(c, 1)
+				}
+				c.Mint()
+				if variant == 0 {
+					c.Slash(1, 20, [][]byte{BLSKeys[1].Addr})
+				} else {
+					c.ChangeParam(EdKeys[0], 10000, "val", "minimumStakeForValidators", 500, 0, 100)
+				}
+				c.End()
+				emptyBlocks(c, 6)
+				c.Finish()
+			}
+			// protocol v2: one slash reaches the per-committee cap (ejection from that committee) AND is the one that drops
+			// the stake below the minimum (forced unstake)
+			g = two()
+			g.Params.Consensus.ProtocolVersion = fsm.NewProtocolVersion(0, 2)
+			g.Params.Validator.MinimumStakeForValidators = 90
+			g.Params.Validator.MaxSlashPerCommittee = 15
+			c, _ = NewChain(o, prop, g)
+			emptyBlocks(c, 1)
+			c.Mint()
+			c.Slash(1, 20, [][]byte{BLSKeys[1].Addr})
+			c.End()
+			emptyBlocks(c, 6)
 			c.Finish()
 		}},
 	)
